@@ -87,15 +87,22 @@ func reverseSteps(in []pathStep) []pathStep {
 }
 
 func (c *Ctx) fieldName(t types.Type, idx int) string {
-	o := c.ownerName(t)
-	if o == "" {
-		if n, ok := types.Unalias(derefType(t)).(*types.Named); ok {
-			o = n.Obj().Name()
-		} else {
-			o = "struct"
+	f := core.StructField(t, idx).Name()
+	if n, ok := types.Unalias(derefType(t)).(*types.Named); ok {
+		if n.Obj().Pkg() == c.P.Types {
+			// canonical (pinned-tree) spelling of unexported declarations that were merely renamed
+			co, cf := core.CanonField(n.Obj().Name(), f)
+			return co + "." + cf
 		}
+		return n.Obj().Name() + "." + f
 	}
-	return o + "." + core.StructField(t, idx).Name()
+	return "struct." + f
+}
+
+// canonFieldName: the canonical name of field idx of (a pointer to) a package struct.
+func (c *Ctx) canonFieldName(t types.Type, idx int) string {
+	s := c.fieldName(t, idx)
+	return s[strings.Index(s, ".")+1:]
 }
 
 // pathString renders the field steps: "state.rs/Resolved.resolvedInfos/[]/resolvedInfo.anchors".
@@ -329,7 +336,7 @@ func constInt(k *ssa.Const) (int64, bool) {
 
 // draftConst returns the value of the package constant named name (draft7, draft2020).
 func (c *Ctx) draftConst(name string) (int64, bool) {
-	obj := c.P.Types.Scope().Lookup(name)
+	obj := c.P.Types.Scope().Lookup(core.CurConst(name))
 	k, ok := obj.(*types.Const)
 	if !ok {
 		return 0, false
